@@ -21,7 +21,7 @@ RULE_TEXT = ('runs = deterministic sweep over every (phase step x position 0..2 
              'armed faults, failing probe children, ATC spawn errors). A run is non-trivial if a fault fired or a '
              'complete fault-free execution with >= 1 cleanup instruction was observed; distinct = distinct abstract '
              'signature (status, mode, shape, fired primary (phase, step, position, kind), fired cleanup fault).')
-REACH_PROBES = ['cleanup_prev_SETUP', 'cleanup_prev_ACT', 'cleanup_prev_BEFORE_ASSERT', 'cleanup_prev_ASSERT',
+REACH_PROBES = ['real_validation_failure', 'cleanup_prev_SETUP', 'cleanup_prev_ACT', 'cleanup_prev_BEFORE_ASSERT', 'cleanup_prev_ASSERT',
                 'double_fault', 'act_mode', 'status_FAIL', 'status_SKIP', 'probe_failure', 'atc_spawn_error',
                 'multi_armed', 'cli_entry', 'no_fault_complete']
 
@@ -228,13 +228,20 @@ def random_plan(seed, tier):
                 form = g.choice(['%', 'run', '$'])
                 items.append({'k': 'probe', 'id': ident, 'form': form})
                 procs[ident] = {'exit': 0, 'stdout': g.choice(['', 'x\n'])}
-            else:
+            elif r < 0.95 or ph == 'conf':
                 items.append({'k': 'real', 'text': g.choice(REAL_OK[ph]).format(n=n)})
+            else:
+                # a real instruction that fails validation (no stub involved): missing home file / undefined symbol
+                v = g.choice([('copy no-such-file-%d' % n, 'pre_sds', 'svh_validation'),
+                              ('def string RV%d = @[UNDEFINED_%d]@' % (n, n), 'symbols', 'undefined_symbol')])
+                items.append({'k': 'real', 'id': ident, 'text': v[0], 'vfail': {'step': v[1], 'kind': v[2]}})
         case[ph] = items
     act_kind = g.choices(['sys', 'shell', 'empty'], [70, 20, 10])[0]
     case['act'] = {'lines': {'sys': ['% atc'], 'shell': ['$ atc arg'], 'empty': []}[act_kind]}
     faults = arm_random_faults(case, procs, fr, act_kind != 'empty')
     entry = 'cli' if g.random() < 0.2 else 'structured'
+    if any(it.get('vfail') for ph in casegen.INSTR_PHASES for it in case[ph]):
+        entry = 'structured'  # a real validation failure is attributed by the line named in the structured result
     plan = _base_plan(seed, tier, case, status, act_mode, faults, entry, procs,
                       knob=kn.choice([1, 2, 3, 5, 8, 13, 64, 4096, 8192]))
     return plan
@@ -283,6 +290,11 @@ def _armed(plan):
             item = plan['case'][pos[ident][0]][pos[ident][1]]
             if item['k'] == 'probe' and not item.get('ignore'):
                 out.append({'id': ident, 'step': 'main', 'kind': 'exit_nonzero', 'real': True})
+    for ph in casegen.INSTR_PHASES:
+        for item in plan['case'].get(ph) or []:
+            if item.get('vfail'):
+                out.append({'id': item['id'], 'step': item['vfail']['step'], 'kind': item['vfail']['kind'], 'real': True,
+                            'by_outcome': True})
     atc = plan['procs'].get('atc', {})
     if atc.get('spawn_error') and plan['case'].get('act', {}).get('lines'):
         out.append({'id': 'atc', 'step': 'execute', 'kind': 'spawn_error', 'real': True})
@@ -305,6 +317,13 @@ def _fired(plan, hist):
             out.append({'id': f['id'], 'step': f['step'], 'kind': f['kind'], 'seq': s['seq'], 'real': True})
         if f['kind'] == 'spawn_error' and s['error']:
             out.append({'id': f['id'], 'step': f['step'], 'kind': f['kind'], 'seq': s['seq'], 'real': True})
+    # real validation failures leave no event: they are attributed by the line the reported failure names
+    res = hist.get('result') or {}
+    if res.get('status') == 'VALIDATION_ERROR' and res.get('line') is not None:
+        for f in _armed(plan):
+            if f.get('by_outcome') and casegen.line_of_item(plan['case'], plan['status'], f['id']) == res['line']:
+                last = max([e['seq'] for e in hist['trace']] + [s_['seq'] for s_ in hist['spawns']] + [0])
+                out.append({'id': f['id'], 'step': f['step'], 'kind': f['kind'], 'seq': last + 1, 'real': True})
     out.sort(key=lambda f: f['seq'])
     return out
 
@@ -333,6 +352,8 @@ def _annotate(plan, hist):
         probes['probe_failure'] = 1
     if any(f['kind'] == 'spawn_error' for f in fired):
         probes['atc_spawn_error'] = 1
+    if any(f.get('real') and f['kind'] in ('svh_validation', 'undefined_symbol') for f in fired):
+        probes['real_validation_failure'] = 1
     if len(_armed(plan)) > 2:
         probes['multi_armed'] = 1
     if plan['entry'] == 'cli':
